@@ -47,8 +47,16 @@ def shards(tier, seed):
     return out
 
 
-def mech(base, two_torsion):
-    return KF_2T if two_torsion else base
+def mech(base, two_torsion, detail=None):
+    """Violations that involve a y = 0 point carry the call shape as a detail suffix; known_findings.json lists
+    exactly the shapes that fail on the pinned tree, so a NEW shape (e.g. legacy + legacy, which is right today) is reported."""
+    if not two_torsion:
+        return base
+    return KF_2T + ("|" + detail if detail else "")
+
+
+def tpat(*pts):
+    return "".join("0" if (X is not None and X[1] == 0) else ("o" if X is None else "-") for X in pts)
 
 
 def relation(c, P, Q):
@@ -84,7 +92,7 @@ def check_binary(ctx, dom, cfp, P, Q, rp, rq, fam, two_t_curve):
     except Exception as e:
         bad = "raised %s: %s" % (type(e).__name__, e)
     if bad:
-        ctx.violation(mech("add_wrong:" + rel, tt), "%s: %s + %s: %s (p=%d a=%d b=%d)" % (fam, sa, sb, bad, p, c.a, c.b),
+        ctx.violation(mech("add_wrong:" + rel, tt, "add|%s|%s|%s|%s" % (rep_class(rp), rep_class(rq), rel, tpat(P, Q, E))), "%s: %s + %s: %s (p=%d a=%d b=%d)" % (fam, sa, sb, bad, p, c.a, c.b),
                       dict(curve=c.key(), P=P, Q=Q, reps=(rp, rq), expected=E), _rp(dom, ["%s + %s" % (sa, sb)]))
     # ---- equality
     want = P == Q
@@ -99,7 +107,7 @@ def check_binary(ctx, dom, cfp, P, Q, rp, rq, fam, two_t_curve):
         if P is None and Q is None and rp != "INF" and rq != "INF" and got_eq is False and got_ne is True:
             # two non-INFINITY objects that both denote the identity (Z = 0 and/or the (0, 0, 1) guise)
             m = KF_IDEQ
-        ctx.violation(mech(m, tt), "%s: (%s == %s) = %r, != gives %r; points equal: %r (p=%d a=%d b=%d)" % (fam, sa, sb, got_eq, got_ne, want, p, c.a, c.b),
+        ctx.violation(mech(m, tt, "eq|%s|%s|%s|%s" % (rep_class(rp), rep_class(rq), rel, tpat(P, Q))), "%s: (%s == %s) = %r, != gives %r; points equal: %r (p=%d a=%d b=%d)" % (fam, sa, sb, got_eq, got_ne, want, p, c.a, c.b),
                       dict(curve=c.key(), P=P, Q=Q, reps=(rp, rq)), _rp(dom, ["%s == %s" % (sa, sb)]))
 
 
@@ -118,7 +126,7 @@ def check_unary(ctx, dom, cfp, P, rp, fam, two_t_curve):
         except Exception as e:
             bad = "raised %s: %s" % (type(e).__name__, e)
         if bad:
-            ctx.violation(mech("double_wrong", tt), "%s: %s.double(): %s (p=%d a=%d b=%d)" % (fam, sa, bad, p, c.a, c.b),
+            ctx.violation(mech("double_wrong", tt, "double|%s|%s" % (rep_class(rp), tpat(P, c.dbl(P)))), "%s: %s.double(): %s (p=%d a=%d b=%d)" % (fam, sa, bad, p, c.a, c.b),
                           dict(curve=c.key(), P=P, rep=rp, expected=c.dbl(P)), _rp(dom, ["%s.double()" % sa]))
     # negation
     if A is not INFINITY:
@@ -131,7 +139,7 @@ def check_unary(ctx, dom, cfp, P, rp, fam, two_t_curve):
             m = "neg_wrong"
             if "unreduced" in bad:
                 m = "unreduced_negated_y"
-            ctx.violation(mech(m, tt), "%s: -(%s): %s" % (fam, sa, bad), dict(curve=c.key(), P=P, rep=rp), _rp(dom, ["-%s" % sa]))
+            ctx.violation(mech(m, tt, "neg|%s|%s" % (rep_class(rp), tpat(P))), "%s: -(%s): %s" % (fam, sa, bad), dict(curve=c.key(), P=P, rep=rp), _rp(dom, ["-%s" % sa]))
     # affine views (on a fresh object: x(), y(), scale(), to_affine() and == with a canonical copy)
     if isinstance(A, PointJacobi):
         A2 = build(cfp, P, rp, rng)
@@ -150,7 +158,7 @@ def check_unary(ctx, dom, cfp, P, rp, fam, two_t_curve):
             bad = "raised %s: %s" % (type(e).__name__, e)
         if bad:
             m = "unreduced_negated_y" if "unreduced" in bad else "affine_view_wrong"
-            ctx.violation(mech(m, tt and P is not None and P[1] == 0), "%s: views of %s: %s" % (fam, s2, bad), dict(curve=c.key(), P=P, rep=rp),
+            ctx.violation(mech(m, tt and P is not None and P[1] == 0, "affine|%s" % rep_class(rp)), "%s: views of %s: %s" % (fam, s2, bad), dict(curve=c.key(), P=P, rep=rp),
                           _rp(dom, ["(lambda A: (A.x(), A.y()))(%s)" % s2, "%s.to_affine()" % s2]))
 
 
